@@ -910,6 +910,7 @@ inline void enumerate(vf::Ctx& ctx, Entry const& e, int LA, int LB, int LSAME)
     auto const dims = e.dims;
     int la          = (dims & D_SMALL) != 0 ? std::min(LA, 3) : ((dims & D_BSAME) != 0 ? std::min(LA, LSAME) : LA);
     if ((dims & D_LEN4) != 0) { la = std::min(la, LSAME); }
+    if (e.it >= 'a' && e.it <= 'z') { la = std::min(la, LSAME); } // mixed iterator categories: one length shorter (budget)
     std::uint64_t idx = 0;
     Case c;
     c.algo = e.name;
